@@ -58,6 +58,17 @@ pub fn generate(seed: u64, idx: u64, thorough: bool) -> RunDesc {
 
 /// Called from the axum stand-in, inside the server's runtime.
 pub fn install(addr: std::net::SocketAddr) -> SimIncoming {
+    SimIncoming { net: install_net(addr) }
+}
+
+/// For a hand-written accept loop (`tokio::net::TcpListener` stand-in).
+pub fn install_listener(addr: std::net::SocketAddr) -> NetRef {
+    let net = install_net(addr);
+    net.lock().unwrap().manual_accept = true;
+    net
+}
+
+fn install_net(addr: std::net::SocketAddr) -> NetRef {
     // keep the getrandom override linked in
     let keep: unsafe extern "C" fn(*mut u8, usize, u32) -> isize = getrandom;
     std::hint::black_box(keep);
@@ -66,6 +77,14 @@ pub fn install(addr: std::net::SocketAddr) -> SimIncoming {
     *BLOCKING_RNG.lock().unwrap() = Some(simcommon::Rng::new(run.hash_seed ^ 0xb10c));
     let net: NetRef = Arc::new(Mutex::new(Net::default()));
     let n2 = net.clone();
+    {
+        // tells the coordinator that the server reached the simulator's seam
+        use std::io::Write;
+        let so = std::io::stdout();
+        let mut l = so.lock();
+        let _ = writeln!(l, "@@C20-INSTALLED");
+        let _ = l.flush();
+    }
     tokio::spawn(async move {
         let out = drive(n2, run, addr.port()).await;
         use std::io::Write;
@@ -75,7 +94,7 @@ pub fn install(addr: std::net::SocketAddr) -> SimIncoming {
         let _ = l.flush();
         std::process::exit(0);
     });
-    SimIncoming { net }
+    net
 }
 
 struct Client {
@@ -100,6 +119,45 @@ pub fn blocking_delay() -> u32 {
         Some(r) => r.below(4) as u32,
         None => 0,
     }
+}
+
+/// Work handed to the blocking pool does not start before the simulator lets
+/// it: each job waits on a gate. After every step the simulator opens each
+/// pending gate with probability 1/2 (seeded), and all of them before a probe
+/// and at the end. A conversion can thus span several simulator actions, so
+/// client faults can land while it is in flight, as in production.
+static GATES: Mutex<Vec<tokio::sync::oneshot::Sender<()>>> = Mutex::new(Vec::new());
+
+pub fn blocking_gate() -> tokio::sync::oneshot::Receiver<()> {
+    let (tx, rx) = tokio::sync::oneshot::channel();
+    GATES.lock().unwrap().push(tx);
+    rx
+}
+
+/// Open pending gates: all of them, or each with probability 1/2. Returns how
+/// many were opened.
+fn open_gates(all: bool) -> usize {
+    let mut pending = std::mem::take(&mut *GATES.lock().unwrap());
+    let mut opened = 0;
+    let mut keep = vec![];
+    for tx in pending.drain(..) {
+        let open = all || {
+            let mut g = BLOCKING_RNG.lock().unwrap();
+            g.as_mut().map(|r| r.chance(1, 2)).unwrap_or(true)
+        };
+        if open {
+            let _ = tx.send(());
+            opened += 1;
+        } else {
+            keep.push(tx);
+        }
+    }
+    GATES.lock().unwrap().extend(keep);
+    opened
+}
+
+fn gates_pending() -> usize {
+    GATES.lock().unwrap().len()
 }
 
 // ---- idleness signal: the tokio stand-in installs `on_park` as the runtime's
@@ -290,6 +348,17 @@ async fn drive(net: NetRef, run: RunDesc, port: u16) -> Value {
                 }
             }
             Action::Hold | Action::Release => {}
+            Action::AcceptError(e) => {
+                let mut n = net.lock().unwrap();
+                if n.manual_accept {
+                    n.accept_errors.push_back(*e);
+                    n.ev(format!("accept-error {}", e));
+                    let w = n.accept_waker.take();
+                    drop(n);
+                    wake(w);
+                    bump("fault_accept_error", 1, &mut stats);
+                }
+            }
             Action::Tick(ms) => {
                 tokio::time::advance(Duration::from_millis(*ms)).await;
                 net.lock().unwrap().ev(format!("tick {}ms", ms));
@@ -335,6 +404,24 @@ async fn drive(net: NetRef, run: RunDesc, port: u16) -> Value {
             continue;
         }
         quiesce_rounds += quiesce(&net).await;
+        // blocking-pool work: some of it runs now, some stays in flight
+        let is_probe = matches!(a, Action::Probe);
+        loop {
+            let opened = open_gates(is_probe);
+            if opened == 0 && !(is_probe && gates_pending() > 0) {
+                break;
+            }
+            if opened > 0 {
+                bump("blocking_jobs_released", opened as u64, &mut stats);
+            }
+            quiesce_rounds += quiesce(&net).await;
+            if !is_probe {
+                break;
+            }
+        }
+        if gates_pending() > 0 {
+            bump("steps_with_blocking_work_in_flight", 1, &mut stats);
+        }
         if let Action::Probe = a {
             // bounded liveness: the probe must be answered once the system is quiet.
             let p = probes.last().unwrap();
@@ -369,6 +456,10 @@ async fn drive(net: NetRef, run: RunDesc, port: u16) -> Value {
                 && !responses_complete(c)
         })
     };
+    while gates_pending() > 0 {
+        open_gates(true);
+        quiesce(&net).await;
+    }
     if pending(&clients) {
         if std::env::var("VERIF_C20_DEBUG").is_ok() {
             for (i, c) in clients.iter().enumerate() {
